@@ -211,21 +211,58 @@ def _detector_gating(ctx):
 
         def upd(it_, a, k, _c=calls):
             _c.append(k.get("time_step"))
-            return {"rec": Rat.atom(("new", to_rat(k.get("time_step")).fmt()))}
+            return {"rec": NdArr((1,), [Rat.atom(("new", to_rat(k.get("time_step")).fmt()))])}
 
         det = Obj(D, dict(name="det", inverse=inverse, exact_interpolation=False, _is_on_at_time_step_arr=SymVec("det_on", Rat.atom("T")), _grid_slice_tuple=((1, 3), (1, 3), (1, 3)), update=Builtin("update", upd)), "det")
-        other = Obj(D, dict(name="other", inverse=not inverse, exact_interpolation=False, _is_on_at_time_step_arr=SymVec("other_on", Rat.atom("T")), _grid_slice_tuple=((1, 3), (1, 3), (1, 3)), update=Builtin("update", lambda it_, a, k: {"rec": Rat.atom("WRONG")})), "other")
+        other = Obj(D, dict(name="other", inverse=not inverse, exact_interpolation=False, _is_on_at_time_step_arr=SymVec("other_on", Rat.atom("T")), _grid_slice_tuple=((1, 3), (1, 3), (1, 3)), update=Builtin("update", lambda it_, a, k: {"rec": NdArr((1,), [Rat.atom("WRONG")])})), "other")
         objs = sc.objects([det, other])
-        arrays = sc.arrays(detector_states={"det": {"rec": Rat.atom("old")}, "other": {"rec": Rat.atom("old_other")}})
+        arrays = sc.arrays(detector_states={"det": {"rec": NdArr((1,), [Rat.atom("old")])}, "other": {"rec": NdArr((1,), [Rat.atom("old_other")])}})  # one record row each
         stub_repo_calls(it, {"_check_updated_state_layout": lambda it_, a, k: None})
         out = it.call(it.closure_of(f), [], dict(time_step=Rat.atom("n"), arrays=arrays, objects=objs, config=sc.config(), H_prev=vec("Hp"), inverse=inverse))
         st = out.attrs["detector_states"]
-        r = to_rat(st["det"]["rec"])
+        r = to_rat(st["det"]["rec"].data[0])
         inds = [a for a in r.atoms() if isinstance(a, tuple) and a and a[0] == "ind"]
         ok = len(inds) == 1 and r.subs({inds[0]: Rat.const(0)}).equals(Rat.atom("old")) and r.subs({inds[0]: Rat.const(1)}).equals(Rat.atom(("new", "n")))
         key_ok = len(inds) == 1 and "(idx,det_on,n)" in repr(inds[0]).replace(" ", "") and "other_on" not in repr(inds[0])
         ctx.ob("R14.4", f"update_detector_states[inverse={inverse}]:gate", ok and key_ok, "the detector's state is select(_is_on_at_time_step_arr[step], update(step, ...), previous state)", r.fmt()[:200], "ind*new + (1-ind)*old")
-        ctx.ob("R14.4", f"update_detector_states[inverse={inverse}]:other-direction", to_rat(st["other"]["rec"]).equals(Rat.atom("old_other")), "detectors of the other time direction are left untouched", to_rat(st["other"]["rec"]).fmt(), "old_other")
+        ctx.ob("R14.4", f"update_detector_states[inverse={inverse}]:other-direction", to_rat(st["other"]["rec"].data[0]).equals(Rat.atom("old_other")), "detectors of the other time direction are left untouched", to_rat(st["other"]["rec"].data[0]).fmt(), "old_other")
+
+
+def _never_on_detector(ctx):
+    """a detector without record rows (always-off switch, empty schedule): the step neither raises nor touches it.  Under
+    jax both branches of the per-detector cond are traced, so the update of such a detector must not be reached at
+    all — writing into its zero-row buffer fails at trace time."""
+    ix = ctx.index
+    f = ix.function("fdtdx.fdtd.update.update_detector_states")
+    from ..scene import Scene
+
+    for inverse in (False, True):
+        it = ctx.fresh_interp()
+        sc = Scene(ix, it)
+        D = ix.cls("fdtdx.objects.detectors.detector.Detector")
+        reached = []
+
+        def upd_empty(it_, a, k, _r=reached):
+            _r.append("empty")
+            raise Raised("IndexError", "index is out of bounds for axis 0 with size 0")
+
+        def upd(it_, a, k, _r=reached):
+            _r.append("live")
+            return {"rec": NdArr((2,), [Rat.atom("new0"), Rat.atom("new1")])}
+
+        common = dict(inverse=inverse, exact_interpolation=False, _grid_slice_tuple=((1, 3), (1, 3), (1, 3)))
+        empty = Obj(D, dict(common, name="never_on", _is_on_at_time_step_arr=SymVec("never_on", Rat.atom("T")), _num_time_steps_on=0, num_time_steps_recorded=0, update=Builtin("update", upd_empty)), "never_on")
+        live = Obj(D, dict(common, name="live", _is_on_at_time_step_arr=SymVec("live_on", Rat.atom("T")), _num_time_steps_on=2, num_time_steps_recorded=2, update=Builtin("update", upd)), "live")
+        objs = sc.objects([empty, live])
+        arrays = sc.arrays(detector_states={"never_on": {"rec": NdArr((0, 3), [])}, "live": {"rec": NdArr((2,), [Rat.atom("old0"), Rat.atom("old1")])}})
+        stub_repo_calls(it, {"_check_updated_state_layout": lambda it_, a, k: None})
+        raised = None
+        try:
+            out = it.call(it.closure_of(f), [], dict(time_step=Rat.atom("n"), arrays=arrays, objects=objs, config=sc.config(), H_prev=vec("Hp"), inverse=inverse))
+        except Raised as r:
+            raised, out = str(r), None
+        kept = out is not None and isinstance(out.attrs["detector_states"]["never_on"]["rec"], NdArr) and out.attrs["detector_states"]["never_on"]["rec"].shape == (0, 3)
+        ctx.ob("R14.5", f"update_detector_states[inverse={inverse}]:never-on-detector", raised is None and "empty" not in reached and "live" in reached and kept, "a detector whose state has no record rows is left out of the step (its update is not reached in either branch of the gate, nothing raises, its empty state is kept) while the other detectors are updated as usual", raised or dict(reached=reached, kept=kept), "not reached; state kept")
 
 
 def _detector_rows(ctx):
@@ -301,6 +338,7 @@ def run(ctx):
     _on_list_rules(ctx)
     _solver_gating(ctx)
     _detector_gating(ctx)
+    _never_on_detector(ctx)
     _detector_rows(ctx)
     ctx.require_count("C14", len(ctx.obligations), 35)
     ctx.trusted_base += ["canonical keys of comparison predicates (sa/absint.py rat_compare)", "abstract source model of C02 (switch predicate and time map opaque)", "recording detector state (sa/harness.py RecState)"]
